@@ -156,7 +156,7 @@ def backend_runs(r, quick):
 
 
 def run():
-    chk = Check("C01", props_modules=["GFO.Props.C01", "GFO.Props.LocalRuns", "GFO.Props.PopRuns", "GFO.Props.EvoRuns", "GFO.Props.PatternRuns", "GFO.Props.PowellRuns", "GFO.Props.SimplexRuns", "GFO.Props.GridRuns"])
+    chk = Check("C01", props_modules=["GFO.Props.C01", "GFO.Props.LocalRuns", "GFO.Props.PopRuns", "GFO.Props.EvoRuns", "GFO.Props.PatternRuns", "GFO.Props.PowellRuns", "GFO.Props.SimplexRuns", "GFO.Props.DirectRuns", "GFO.Props.GridRuns"])
     chk.build_and_audit()
     r = C.rng("C01")
     quick = C.tier() != "thorough"
@@ -179,5 +179,6 @@ def run():
     localgen.add_pattern_to(chk, C.rng("C01-pattern"), C.T(20, 200), constraint_p=0.3, nonfinite_p=0.0)
     localgen.add_powell_to(chk, C.rng("C01-powell"), C.T(20, 200), constraint_p=0.3, nonfinite_p=0.0)
     localgen.add_simplex_to(chk, C.rng("C01-simplex"), C.T(20, 200), constraint_p=0.3, nonfinite_p=0.0)
+    localgen.add_direct_to(chk, C.rng("C01-direct"), C.T(20, 200), constraint_p=0.3, nonfinite_p=0.0)
     scen.shutdown_manager()
     return chk.finish()
